@@ -352,6 +352,7 @@ type scenario struct {
 	silent   bool // oracle-only scenario: no protocol lines (for corpus cases outside the machine)
 	setFail  bool // RecordUpdaterSetStatus returns an error
 	gcFail   bool // store.GC returns an error
+	meet     bool // workers leave driveUpdater in pairs, at the same moment
 }
 
 func (s *scenario) decls() []string {
